@@ -124,7 +124,8 @@ Proof.
   intros <- Hjn Hrxd Hdls Hn Hd Hcf body mic.
   unfold build_join_accept. cbn [t_cflist t_dl t_devaddr t_rxdelay].
   pose proof (dls_ok dls Hdls) as D. destruct (dec_dlsettings dls) as [[o rx2] rx1]. destruct D as [D1 D2].
-  replace (Z.to_N (Z.of_N rxd mod 256)) with rxd by lia.
+  replace ((Z.of_N rxd <? 0)%Z || (15 <? Z.of_N rxd)%Z) with false by lia.
+  replace (Z.to_N (Z.of_N rxd)) with rxd by lia.
   assert (PM : forall cfl, (match cfl with None => Ok [] | Some l => cflist_marshal l end) = Ok cf ->
      payload_marshal (PLJoinAccept jn netid devaddr o rx2 rx1 rxd cfl) = Ok body).
   { intros cfl Hc. cbn [payload_marshal].
@@ -252,7 +253,7 @@ Qed.
 Lemma device_accept_ok d reqtype dn jn netid devaddr dls rxd cf key :
   wf_device d -> reqtype < 256 ->
   jn < 16777216 -> length netid = 3%nat -> length devaddr = 4%nat -> (cf = [] \/ length cf = 16%nat) ->
-  bytes netid -> bytes devaddr -> bytes cf -> dls < 256 -> rxd < 256 ->
+  bytes netid -> bytes devaddr -> bytes cf -> dls < 256 -> rxd < 16 ->
   key = (if reqtype =? JoinReqType_join then d_nwkkey d else d_jsenckey d) ->
   let body := ja_body jn netid devaddr dls rxd cf in
   let mic := expected_mic d reqtype dn dls body in
@@ -263,7 +264,7 @@ Proof.
   assert (Lm : length mic = 4%nat).
   { unfold mic, expected_mic, mic4. destruct (negb _); rewrite firstn_length, cmac_length; reflexivity. }
   assert (Lb : length body = (12 + length cf)%nat) by (apply ja_body_length; assumption).
-  assert (Bb : bytes body) by (apply ja_body_bytes; assumption).
+  assert (Bb : bytes body) by (apply ja_body_bytes; try assumption; lia).
   assert (Bm : bytes mic) by (apply expected_mic_bytes; assumption).
   assert (Bk : bytes key).
   { destruct Wd as (_ & Bde & _ & _ & _ & Bnk & _ & _). subst key. destruct (reqtype =? JoinReqType_join); [exact Bnk|].
@@ -287,6 +288,7 @@ Proof.
   rewrite <- Hkey. unfold ecb_encrypt. rewrite blocks_ecb, Lc.
   rewrite (ecb_enc_dec key (length pt / 16) pt Bk Bp Lp1).
   unfold device_check. rewrite S1, S2, F1, F2, F3, F4, F5, F6, Lb.
+  replace (rxd mod 16) with rxd by lia.
   fold (expected_mic d reqtype dn dls body). fold mic.
   rewrite list_eqb_refl. cbn [negb]. rewrite (le_val3 jn Hjn), !rev_involutive.
   replace (if (12 + length cf =? 28)%nat then Some cf else None) with (match cf with [] => None | _ => Some cf end).
@@ -392,8 +394,7 @@ Definition mirrors (r : request) (a : answer) : Prop :=
   end.
 
 Lemma activation_answer mt pipe cfg r :
-  let a := handle_activation mt pipe cfg r in
-  mirrors r a \/ (a = ABare 400 ROther /\ typed_decode r = Err) \/ a = APanic.
+  let a := handle_activation mt pipe cfg r in mirrors r a \/ a = APanic.
 Proof.
   unfold handle_activation.
   destruct (typed_decode r) as [t| | |]; cbn; auto.
@@ -404,11 +405,13 @@ Proof.
   destruct (pipe _ _ _ _ _ _ _ _) as [[phy keys]| | |]; cbn; auto.
 Qed.
 
-(* a request the JSON layer accepts but no typed payload / served message type fits *)
-Definition undecodable (r : request) : Prop :=
+(* the request of a body whose base payload encoding/json accepts *)
+Definition request_of (b : body) : option request :=
+  match b with BadJSON => None | BadMember r => Some r | Body r => Some r end.
+
+(* nothing to mirror / no answer type: the base payload does not decode, or the message type is not served *)
+Definition unanswerable (r : request) : Prop :=
   base_decode r = Err \/
-  (r_mtype r = s_JoinReq \/ r_mtype r = s_RejoinReq) /\ typed_decode r = Err \/
-  r_mtype r = s_HomeNSReq /\ field (zero_bytes 8) (unmarshal_text 8) (r_deveui r) = Err \/
   (r_mtype r <> s_JoinReq /\ r_mtype r <> s_RejoinReq /\ r_mtype r <> s_HomeNSReq).
 
 Lemma bytes_eqb_true a b : bytes_eqb a b = true -> a = b.
@@ -418,46 +421,62 @@ Proof. intros H ->. unfold bytes_eqb in H. rewrite list_eqb_refl in H. discrimin
 
 Theorem answer_shape cfg b :
   match handle cfg b with
-  | AMsg _ _ sd rv tx _ _ _ _ _ => exists r, b = Body r /\ sd = r_receiver r /\ rv = r_sender r /\ tx = r_txid r
-  | ABare st rc => st = 400 /\ rc = ROther /\ (b = BadJSON \/ exists r, b = Body r /\ undecodable r)
+  | AMsg _ _ sd rv tx _ _ _ _ _ =>
+    exists r, request_of b = Some r /\ sd = r_receiver r /\ rv = r_sender r /\ tx = r_txid r
+  | ABare st rc => st = 400 /\ rc = ROther /\ (b = BadJSON \/ exists r, request_of b = Some r /\ unanswerable r)
   | APanic => True
   end.
 Proof.
-  destruct b as [|r]; cbn [handle]; [auto|].
-  unfold undecodable.
-  destruct (base_decode r) eqn:Eb; try exact I; [|split; [reflexivity|split; [reflexivity|right; exists r; auto]]].
-  destruct (bytes_eqb (r_mtype r) s_JoinReq) eqn:E1.
-  { apply bytes_eqb_true in E1.
-    pose proof (activation_answer MJoinAns join_pipeline cfg r) as A. cbn zeta in A.
-    destruct (handle_activation MJoinAns join_pipeline cfg r); cbn [mirrors] in A.
-    - destruct A as [[]|[[A1 A2]|A]]; [|discriminate A]. inversion A1; subst.
-      split; [reflexivity|]. split; [reflexivity|]. right. exists r. split; [reflexivity|]. right. left. auto.
-    - destruct A as [(-> & -> & ->)|[[A _]|A]]; try discriminate A. exists r. auto.
-    - exact I. }
-  destruct (bytes_eqb (r_mtype r) s_RejoinReq) eqn:E2.
-  { apply bytes_eqb_true in E2.
-    pose proof (activation_answer MRejoinAns rejoin_pipeline cfg r) as A. cbn zeta in A.
-    destruct (handle_activation MRejoinAns rejoin_pipeline cfg r); cbn [mirrors] in A.
-    - destruct A as [[]|[[A1 A2]|A]]; [|discriminate A]. inversion A1; subst.
-      split; [reflexivity|]. split; [reflexivity|]. right. exists r. split; [reflexivity|]. right. left. auto.
-    - destruct A as [(-> & -> & ->)|[[A _]|A]]; try discriminate A. exists r. auto.
-    - exact I. }
-  destruct (bytes_eqb (r_mtype r) s_HomeNSReq) eqn:E3.
-  { apply bytes_eqb_true in E3. unfold handle_homens.
-    destruct (field (zero_bytes 8) (unmarshal_text 8) (r_deveui r)) as [de| | |] eqn:F; try exact I.
-    - destruct (get_homenetid cfg de); exists r; auto.
-    - split; [reflexivity|]. split; [reflexivity|]. right. exists r. split; [reflexivity|]. right. right. left. auto. }
-  apply bytes_eqb_false in E1, E2, E3.
-  split; [reflexivity|]. split; [reflexivity|]. right. exists r. split; [reflexivity|]. right. right. right. auto.
+  unfold unanswerable.
+  destruct b as [|r|r]; cbn [handle request_of]; [auto| |].
+  - unfold member_error.
+    destruct (base_decode r) eqn:Eb; try exact I; [|split; [reflexivity|split; [reflexivity|right; exists r; auto]]].
+    destruct (bytes_eqb (r_mtype r) s_JoinReq) eqn:E1; [exists r; auto|].
+    destruct (bytes_eqb (r_mtype r) s_RejoinReq) eqn:E2; [exists r; auto|].
+    destruct (bytes_eqb (r_mtype r) s_HomeNSReq) eqn:E3; [exists r; auto|].
+    apply bytes_eqb_false in E1, E2, E3.
+    split; [reflexivity|]. split; [reflexivity|]. right. exists r. auto.
+  - destruct (base_decode r) eqn:Eb; try exact I; [|split; [reflexivity|split; [reflexivity|right; exists r; auto]]].
+    destruct (bytes_eqb (r_mtype r) s_JoinReq) eqn:E1.
+    { pose proof (activation_answer MJoinAns join_pipeline cfg r) as A. cbn zeta in A.
+      destruct (handle_activation MJoinAns join_pipeline cfg r); cbn [mirrors] in A.
+      - destruct A as [[]|A]; discriminate A.
+      - destruct A as [(-> & -> & ->)|A]; [|discriminate A]. exists r. auto.
+      - exact I. }
+    destruct (bytes_eqb (r_mtype r) s_RejoinReq) eqn:E2.
+    { pose proof (activation_answer MRejoinAns rejoin_pipeline cfg r) as A. cbn zeta in A.
+      destruct (handle_activation MRejoinAns rejoin_pipeline cfg r); cbn [mirrors] in A.
+      - destruct A as [[]|A]; discriminate A.
+      - destruct A as [(-> & -> & ->)|A]; [|discriminate A]. exists r. auto.
+      - exact I. }
+    destruct (bytes_eqb (r_mtype r) s_HomeNSReq) eqn:E3.
+    { unfold handle_homens.
+      destruct (field (zero_bytes 8) (unmarshal_text 8) (r_deveui r)) as [de| | |] eqn:F; try exact I.
+      - destruct (get_homenetid cfg de); exists r; auto.
+      - exists r; auto. }
+    apply bytes_eqb_false in E1, E2, E3.
+    split; [reflexivity|]. split; [reflexivity|]. right. exists r. auto.
 Qed.
 
 (* every answer that is a JoinAns / RejoinAns / HomeNSAns message mirrors the request *)
-Theorem mirror cfg r st mt sd rv tx rc phy lt keys hn :
-  handle cfg (Body r) = AMsg st mt sd rv tx rc phy lt keys hn ->
-  sd = r_receiver r /\ rv = r_sender r /\ tx = r_txid r.
+Theorem mirror cfg b st mt sd rv tx rc phy lt keys hn :
+  handle cfg b = AMsg st mt sd rv tx rc phy lt keys hn ->
+  exists r, request_of b = Some r /\ sd = r_receiver r /\ rv = r_sender r /\ tx = r_txid r.
+Proof. intros H. pose proof (answer_shape cfg b) as A. rewrite H in A. exact A. Qed.
+
+(* a request whose base payload decodes and whose message type is served ALWAYS gets a mirrored answer
+   message (whatever is wrong with the other members) - unless a configuration callback panics *)
+Theorem served_is_mirrored cfg b r :
+  request_of b = Some r -> base_decode r = Ok tt ->
+  (r_mtype r = s_JoinReq \/ r_mtype r = s_RejoinReq \/ r_mtype r = s_HomeNSReq) ->
+  mirrors r (handle cfg b) \/ handle cfg b = APanic.
 Proof.
-  intros H. pose proof (answer_shape cfg (Body r)) as A. rewrite H in A.
-  destruct A as (r' & E & A). inversion E; subst. exact A.
+  intros Hb Hbase Hmt. pose proof (answer_shape cfg b) as A.
+  destruct (handle cfg b) eqn:E; [| |auto].
+  - exfalso. destruct A as (_ & _ & [->|(r' & Hr' & U)]); [discriminate Hb|].
+    rewrite Hb in Hr'. injection Hr' as <-. destruct U as [U|(U1 & U2 & U3)]; [congruence|].
+    destruct Hmt as [H|[H|H]]; contradiction.
+  - left. destruct A as (r' & Hr' & A). rewrite Hb in Hr'. injection Hr' as <-. exact A.
 Qed.
 
 (* ---------- session keys ---------- *)
@@ -474,7 +493,7 @@ Qed.
 Lemma set_join_nonce_ok nk ak jn : jn < 16777216 -> set_join_nonce (mkDevKeys nk ak (Z.of_N jn)) = Ok jn.
 Proof.
   intros H. unfold set_join_nonce. cbn [dk_joinnonce].
-  replace (16777215 <? Z.of_N jn)%Z with false by lia. f_equal. lia.
+  replace ((Z.of_N jn <? 0)%Z || (16777215 <? Z.of_N jn)%Z) with false by lia. f_equal. lia.
 Qed.
 
 Definition opt_cf (cf : list N) : option (list N) := match cf with [] => None | _ => Some cf end.
@@ -513,13 +532,13 @@ Proof.
   destruct o; apply bytes_rev; assumption.
 Qed.
 
-Theorem join_usable cfg r d dn netid devaddr dls rxd cf jn nskek aslabel askek :
+Theorem join_usable cfg r d dn netid rid devaddr dls rxd cf jn nskek aslabel askek :
   wf_device d -> dn < 65536 -> jn < 16777216 ->
   length netid = 3%nat -> bytes netid -> length devaddr = 4%nat -> bytes devaddr ->
   dls < 256 -> rxd < 16 -> bytes cf -> cf_canonical cf ->
   r_mtype r = s_JoinReq -> base_decode r = Ok tt ->
   typed_decode r = Ok (mkTReq (join_request_frame d dn) (d_deveui d) devaddr (dec_dlsettings dls) (Z.of_N rxd) cf) ->
-  unmarshal_text 3 (r_sender r) = Ok netid -> unmarshal_text 8 (r_receiver r) = Ok (d_joineui d) ->
+  unmarshal_text 3 (r_sender r) = Ok netid -> unmarshal_text 8 (r_receiver r) = Ok rid ->
   get_keys cfg (d_deveui d) = Found (mkDevKeys (d_nwkkey d) (d_appkey d) (Z.of_N jn)) ->
   get_kek cfg (r_sender r) = Ok nskek -> kek_supported nskek ->
   get_aslabel cfg (d_deveui d) = Ok aslabel -> get_kek cfg aslabel = Ok askek -> kek_supported askek ->
@@ -659,7 +678,11 @@ Qed.
 
 Lemma rejoin_frame_decodes d ty rc frame : wf_device d -> rc < 65536 -> rejoin_frame_of d ty rc frame ->
   exists p, phy_unmarshal frame = Ok p /\
-            match pl p with PLRejoin02 t _ _ c | PLRejoin1 t _ _ c => t = ty /\ c = rc | _ => False end.
+            match pl p with
+            | PLRejoin02 t _ _ c => t = ty /\ c = rc
+            | PLRejoin1 t je _ c => t = ty /\ c = rc /\ je = d_joineui d
+            | _ => False
+            end.
 Proof.
   intros (Lde & _ & Lje & _) Hrc [[Hty (nid & m & Ln & Lm & ->)]|[-> (m & Lm & ->)]].
   - rewrite phy_unmarshal_rejoin02 by assumption. eexists. split; [reflexivity|]. cbn. auto.
@@ -703,10 +726,10 @@ Proof.
   unfold handle_activation. rewrite Htyped. cbn [t_deveui]. rewrite Hkeys, Hns, Has, Hask.
   unfold rejoin_pipeline. cbn [t_phy t_dl t_deveui]. rewrite Hp, Hs, Hr. cbn [lift pbind].
   assert (Etn : match pl p with
-                | PLRejoin02 ty0 _ _ rc0 => POk (ty0, rc0)
-                | PLRejoin1 ty0 _ _ rc0 => POk (ty0, rc0)
-                | _ => POther end = POk (ty, rc)).
-  { destruct (pl p); try contradiction; destruct Hpl as [-> ->]; reflexivity. }
+                | PLRejoin02 ty0 _ _ rc0 => POk (ty0, d_joineui d, rc0)
+                | PLRejoin1 ty0 je _ rc0 => POk (ty0, je, rc0)
+                | _ => POther end = POk (ty, d_joineui d, rc)).
+  { destruct (pl p); try contradiction; [destruct Hpl as [-> ->]|destruct Hpl as (-> & -> & ->)]; reflexivity. }
   rewrite Etn. cbn [pbind dk_nwkkey dk_appkey].
   rewrite (set_join_nonce_ok _ _ _ Hjn). cbn [lift pbind].
   rewrite (session_keys_ok false _ netid (d_joineui d) jn rc Hjn).
